@@ -2,6 +2,7 @@
 from .. import common as C
 from .. import gen as G
 from .. import streams as S
+from .. import bitstream as BS
 
 def cases(ctx):
     rng = ctx.rng
@@ -89,6 +90,10 @@ def run(ctx):
         want = ["ok vals=" + ",".join("%x" % x for x in ch) for ch in c["chunks"]]
         if bodies != want or toks[-1] != "ok none":
             ctx.violation("chunk-by-chunk reading differs from the input", S.compress_line(c), str(want), a)
+    # layer B: BitWriter / BitReader operation scripts through the guarded hooks vs the Lean word-level model
+    # (proved equal to the bit-list level: writeDiff_spec, writeVarint_spec, readDiff_spec, readVarint_spec, ...)
+    BS.run(ctx, BS.writer_lines(ctx.rng, 1500 if ctx.quick else 20000), "bits(writer)")
+    BS.run(ctx, BS.reader_lines(ctx.rng, 1500 if ctx.quick else 20000), "bits(reader)")
     # big implementation-only round trips
     big = [
         "bigrt i32 8 0 1 zeros_outlier 9000001 1",
